@@ -82,6 +82,32 @@ def expand(x):
 
 
 case_s = st.binary(min_size=12, max_size=12).map(expand)
+
+# the same machinery restricted to what C11 states about records: only protected handshake records (Finished of TLS 1.2 / TLCP, everything
+# after ServerHello in TLS 1.3) and application records, only the classes that change a record's size, padding or framing
+RECORD_CLASSES = ("extend", "extend", "reclen", "reclen", "pad", "trunc", "zerorec", "split", "coalesce")
+
+
+def expand_records(x):
+    h = int.from_bytes(hashlib.sha512(b"c11/peerrecords/" + x).digest(), "big")
+
+    def pick(n):
+        nonlocal h
+        h, r = divmod(h, n)
+        return r
+    case = {"draw": x.hex(), "proto": PROTOS[pick(3)], "role": ROLES[pick(2)], "auth": pick(2), "inst": pick(2), "seed": pick(1 << 20)}
+    tg = [t for t in targets_for(case["proto"], case["role"], case["auth"]) if t[1] == "app" or protected(case["proto"], t[1])]
+    case["idx"], case["target"] = tg[pick(len(tg))]
+    if case["target"] == "app":
+        case["cls"] = "app"
+    else:
+        cl = [c for c in RECORD_CLASSES if c != "pad" or protected(case["proto"], case["target"])]
+        case["cls"] = cl[pick(len(cl))]
+    case["p"] = [pick(1 << 16) for _ in range(8)]
+    return case
+
+
+records_s = st.binary(min_size=12, max_size=12).map(expand_records)
 _CONTROL = {}
 
 
@@ -105,8 +131,8 @@ def _control(ctx, proto, role, auth, inst):
     return _CONTROL[k]
 
 
-def register(P, quick=10000, thorough=160000):
-    @P.sub("peerfuzz", case_s, quick=quick, thorough=thorough, variants=("asan",), chunk=40)
+def register(P, quick=10000, thorough=160000, name="peerfuzz", strategy=None):
+    @P.sub(name, strategy or case_s, quick=quick, thorough=thorough, variants=("asan",), chunk=40)
     def peerfuzz(case, ctx):
         """scripted TLS 1.3 / TLS 1.2 / TLCP peer sends malformed but correctly protected messages and records: memory safety behind the keys"""
         proto, role, auth, inst, seed = case["proto"], case["role"], case["auth"], case["inst"], case["seed"]
